@@ -183,6 +183,17 @@ type sxTwoPtr struct {
 	s    *sxInner
 }
 
+type sxRec struct {
+	id   int64
+	name string
+}
+type sxArrPtrs struct {
+	a *int32
+	b *[4]int32
+	c *[4]int32
+	d *int32
+}
+
 func staticValue(name string) (interface{}, J, J) {
 	sc := func(k string) J { return J{"k": k} }
 	innerT := J{"k": "struct", "f": []J{sc("int8"), {"k": "slice", "e": sc("int16")}, {"k": "ptr", "e": sc("int64")}}}
@@ -223,6 +234,23 @@ func staticValue(name string) (interface{}, J, J) {
 		iv := in.(sxInner)
 		return &sxTwoPtr{&x, &x, &iv, &iv}, J{"k": "ptr", "e": J{"k": "struct", "f": []J{{"k": "ptr", "e": sc("int64")}, {"k": "ptr", "e": sc("int64")}, {"k": "ptr", "e": ti}, {"k": "ptr", "e": ti}}}},
 			J{"nil": false, "to": J{"f": []J{{"nil": false, "to": J{"x": 5}}, {"nil": false, "to": J{"x": 5}}, {"nil": false, "to": vi}, {"nil": false, "to": vi}}}}
+	case "interior":
+		// two pointers with the same address and different pointees: a struct and its first field
+		rec := &sxRec{id: 7, name: "hello"}
+		recT := J{"k": "struct", "f": []J{sc("int64"), {"k": "string"}}}
+		recV := J{"f": []J{{"x": 7}, {"n": 5, "x": 1}}}
+		return []interface{}{&rec.id, rec, &rec.id}, J{"k": "slice", "e": sc("iface")},
+			J{"nil": false, "el": []J{
+				{"nil": false, "dt": J{"k": "ptr", "e": sc("int64")}, "dyn": J{"nil": false, "to": J{"x": 7}}},
+				{"nil": false, "dt": J{"k": "ptr", "e": recT}, "dyn": J{"nil": false, "to": recV}},
+				{"nil": false, "dt": J{"k": "ptr", "e": sc("int64")}, "dyn": J{"nil": false, "to": J{"x": 7}}}}}
+	case "interiorarr":
+		// an array and its first element; a slice and its first element; the larger pointee comes second, then first
+		arr := &[4]int32{1, 2, 3, 4}
+		arrT := J{"k": "array", "n": 4, "e": sc("int32")}
+		arrV := J{"el": []J{{"x": 1}, {"x": 2}, {"x": 3}, {"x": 4}}}
+		return &sxArrPtrs{&arr[0], arr, arr, &arr[0]}, J{"k": "ptr", "e": J{"k": "struct", "f": []J{{"k": "ptr", "e": sc("int32")}, {"k": "ptr", "e": arrT}, {"k": "ptr", "e": arrT}, {"k": "ptr", "e": sc("int32")}}}},
+			J{"nil": false, "to": J{"f": []J{{"nil": false, "to": J{"x": 1}}, {"nil": false, "to": arrV}, {"nil": false, "to": arrV}, {"nil": false, "to": J{"x": 1}}}}}
 	case "outerslice":
 		a, ta, va := staticValue("outer")
 		o := a.(sxOuter)
@@ -444,7 +472,7 @@ func (sg *sizeGen) val(t J, depth int, uniq bool) J {
 func genC20(g *Gen) {
 	sg := &sizeGen{r: g.R}
 	g.Case("size", J{"topnil": true})
-	for _, name := range []string{"inner", "innerptr", "outer", "outerslice", "emb", "embptr", "twoptr", "samename"} {
+	for _, name := range []string{"inner", "innerptr", "outer", "outerslice", "emb", "embptr", "twoptr", "samename", "interior", "interiorarr"} {
 		g.Case("size", J{"topnil": false, "static": name})
 	}
 	// every scalar kind at top level, in a slice, an array, behind a pointer, in an interface, as map value
@@ -494,6 +522,60 @@ func genC20(g *Gen) {
 			t, v = J{"k": "map", "key": J{"k": "string"}, "e": J{"k": "slice", "e": J{"k": "uint8"}}}, J{"nil": false, "kv": kv}
 		}
 		g.Case("size", J{"topnil": false, "t": t, "v": v})
+	}
+	// long containers (around 1024 and beyond) of pointer-free elements whose fields have different widths: the
+	// structural sum of such an element is smaller than its size in memory (alignment padding is not a part)
+	flat := []J{
+		{"k": "struct", "f": []J{{"k": "int8"}, {"k": "int64"}}},
+		{"k": "struct", "f": []J{{"k": "uint16"}, {"k": "uint8"}}},
+		{"k": "struct", "f": []J{{"k": "bool"}, {"k": "array", "n": 3, "e": J{"k": "uint16"}}, {"k": "uint32"}}},
+		{"k": "array", "n": 3, "e": J{"k": "struct", "f": []J{{"k": "uint8"}, {"k": "uint64"}}}},
+		{"k": "struct", "f": []J{{"k": "complex128"}, {"k": "bool"}}},
+	}
+	var flatV func(t J) J
+	flatV = func(t J) J {
+		switch t["k"] {
+		case "struct":
+			fs := t["f"].([]J)
+			vs := make([]J, len(fs))
+			for i := range fs {
+				vs[i] = flatV(fs[i])
+			}
+			return J{"f": vs}
+		case "array":
+			el := make([]J, t["n"].(int))
+			for i := range el {
+				el[i] = flatV(t["e"].(J))
+			}
+			return J{"el": el}
+		}
+		sg.ctr++
+		return J{"x": sg.ctr}
+	}
+	ci := 0
+	for _, n := range []int{255, 256, 1023, 1024, 1500, 4096, 65536} {
+		if n == 65536 && g.Quick() {
+			continue
+		}
+		for fi, et := range flat {
+			ci++
+			if g.Quick() && (ci+int(g.Seed))%2 == 0 && n != 1024 {
+				continue
+			}
+			if !g.Mine() {
+				g.Case("size", nil)
+				continue
+			}
+			el := make([]J, n)
+			for i := range el {
+				el[i] = flatV(et)
+			}
+			if (fi+n)%2 == 0 {
+				g.Case("size", J{"topnil": false, "t": J{"k": "slice", "e": et}, "v": J{"nil": false, "el": el}})
+			} else {
+				g.Case("size", J{"topnil": false, "t": J{"k": "ptr", "e": J{"k": "array", "n": n, "e": et}}, "v": J{"nil": false, "to": J{"el": el}}})
+			}
+		}
 	}
 	for c := 0; c < g.N(2500, 100000); c++ {
 		depth := 1 + g.R.Intn(g.N(4, 6))
